@@ -195,11 +195,14 @@ def findLast (s : Src α) : Lazy α :=
     | (_, some e) => .error e
     | (result, none) => .ok result)).orElseThrow .noLast
 
+/-- the consumer closure of FindFirstAndLast, shpan_stream.go:195-200; state = (first, last) -/
+def firstLastStep (st : Option α × Option α) (v : α) : Option α × Option α :=
+  ((match st.1 with | none => some v | some f => some f), some v)
+
 /-- shpan_stream.go:191-215 -/
 def findFirstAndLast (s : Src α) : Lazy (α × α) :=
   (Lazy.newLazyOptional (fun ctx =>
-    match s.consume ctx (fun (st : Option α × Option α) v =>
-        ((match st.1 with | none => some v | some f => some f), some v)) (none, none) with
+    match s.consume ctx firstLastStep (none, none) with
     | (_, some e) => .error e                         -- :201-203
     | ((some f, some l), none) => .ok (some (f, l))   -- :207-210
     | (_, none) => .ok none)).orElseThrow .noFirstLast -- :204-206
@@ -309,22 +312,27 @@ end GoMap
 namespace Src
 variable {α κ ν : Type} [DecidableEq κ]
 
+/-- the consumer closure of CollectToMap, shpan_stream_collectors.go:17-24 -/
+def collectToMapStep (kvFactory : α → κ × ν) (result : GoMap κ ν) (src : α) : Except Err (GoMap κ ν) :=
+  match result.get? (kvFactory src).1 with
+  | some _ => .error .dupKey                          -- :19-21
+  | none => .ok (result.set (kvFactory src).1 (kvFactory src).2)   -- :22
+
 /-- shpan_stream_collectors.go:11-29 -/
 def collectToMap (s : Src α) (ctx : Ctx) (kvFactory : α → κ × ν) : Except Err (GoMap κ ν) :=
-  match s.consumeWithErr ctx (fun (result : GoMap κ ν) src =>
-      let (k, v) := kvFactory src
-      match result.get? k with
-      | some _ => .error .dupKey                      -- :19-21
-      | none => .ok (result.set k v)) [] with         -- :22
+  match s.consumeWithErr ctx (collectToMapStep kvFactory) [] with
   | (_, some e) => .error e
   | (result, none) => .ok result
 
+/-- the consumer closure of CollectToSet, shpan_stream_collectors.go:38-44 -/
+def collectToSetStep (result : GoMap κ Bool) (k : κ) : Except Err (GoMap κ Bool) :=
+  match result.get? k with
+  | some _ => .error .dupKey
+  | none => .ok (result.set k true)
+
 /-- shpan_stream_collectors.go:33-49 -/
 def collectToSet (s : Src κ) (ctx : Ctx) : Except Err (GoMap κ Bool) :=
-  match s.consumeWithErr ctx (fun (result : GoMap κ Bool) k =>
-      match result.get? k with
-      | some _ => .error .dupKey
-      | none => .ok (result.set k true)) [] with
+  match s.consumeWithErr ctx collectToSetStep [] with
   | (_, some e) => .error e
   | (result, none) => .ok result
 
@@ -334,16 +342,23 @@ def mustCollectToSet (s : Src κ) : Must (GoMap κ Bool) :=
   | .error e => .panic e
   | .ok m => .ret m
 
-/-- shpan_stream_collectors.go:66-79: `result[grouper(v)]++` -/
+/-- `result[grouper(v)]++`, shpan_stream_collectors.go:73 -/
+def countStep (grouper : α → κ) (result : GoMap κ Nat) (v : α) : GoMap κ Nat :=
+  result.set (grouper v) ((result.get? (grouper v)).getD 0 + 1)
+
+/-- shpan_stream_collectors.go:66-79 -/
 def collectCountGroupedBy (s : Src α) (ctx : Ctx) (grouper : α → κ) : Except Err (GoMap κ Nat) :=
-  match s.consume ctx (fun (result : GoMap κ Nat) v =>
-      result.set (grouper v) ((result.get? (grouper v)).getD 0 + 1)) [] with
+  match s.consume ctx (countStep grouper) [] with
   | (_, some e) => .error e
   | (result, none) => .ok result
 
+/-- `result[grouper(v)] = v`, shpan_stream_collectors.go:87 -/
+def overrideStep (grouper : α → κ) (result : GoMap κ α) (v : α) : GoMap κ α :=
+  result.set (grouper v) v
+
 /-- shpan_stream_collectors.go:84-93 -/
 def collectToMapOverrideDuplicates (s : Src α) (ctx : Ctx) (grouper : α → κ) : Except Err (GoMap κ α) :=
-  match s.consume ctx (fun (result : GoMap κ α) v => result.set (grouper v) v) [] with
+  match s.consume ctx (overrideStep grouper) [] with
   | (_, some e) => .error e
   | (result, none) => .ok result
 
@@ -398,7 +413,7 @@ def iterator {σ : Type} (s : Src α) (yield : σ → α → σ × Bool) (init :
 
 /-- to_iterator.go:11-20: `index` starts at -1 and is incremented before each yield; the model keeps `index + 1` -/
 def indexedIterator {σ : Type} (s : Src α) (yield : σ → Nat → α → σ × Bool) (init : σ) : σ × Must Unit :=
-  match s.iterator (fun (st : σ × Nat) v => let r := yield st.1 st.2 v; ((r.1, st.2 + 1), r.2)) (init, 0) with
+  match s.iterator (fun (st : σ × Nat) v => (((yield st.1 st.2 v).1, st.2 + 1), (yield st.1 st.2 v).2)) (init, 0) with
   | (st, m) => (st.1, m)
 
 end Src
